@@ -229,6 +229,10 @@ func (f *FailoverOf[V]) Get(
 
 	// Disabling defer to unlock in background.
 	alreadyLocked = true
+
+	// Copying key to allow mutations of original argument while update runs in background.
+	key = append([]byte(nil), key...)
+
 	// Spawning cache update in background.
 	go func() {
 		defer func() {
